@@ -183,7 +183,7 @@ PROPERTY = {
             strategy=strat_pcacd,
             nontrivial=lambda L: "nontrivial" in L,
             quick=250,
-            thorough=4000,
+            thorough=8000,
             shards_quick=16,
             describe=lambda c: {"params": c["params"], "flavour": c["flavour"], "n_items": len(c["items"]), "first_rows": c["items"][:2]},
         )
